@@ -107,6 +107,9 @@ def std_replay(check_recipe):
     return replay
 
 
+from mc.callers import RepeatCallDiffers, InputMutated, InPlace  # noqa: E402,F401
+
+
 class Fails(list):
     def __init__(self, want=None):
         super().__init__()
@@ -146,5 +149,5 @@ def clear_caches():
 __all__ = [
     "Case", "Fails", "Report", "close", "REL_D", "size", "natural_key", "FOREIGN", "np",
     "layer_items", "layer_recipes", "std_explore", "std_culprit", "std_replay", "threshold",
-    "clear_caches", "detuple",
+    "clear_caches", "detuple", "InPlace",
 ]
